@@ -987,6 +987,9 @@ fn judge_point(p: &Prepared, o: &PointObs, k: usize, at: &str, wt_label: Option<
         if !is_final_name(name) {
             continue;
         }
+        if path.contains("/heads/") && bytes.is_empty() {
+            continue; // stacked-table head markers: empty files, come and go (C21's subject)
+        }
         match (p.before_objs.get(path), p.after_objs.get(path)) {
             (Some(b), _) if same_object(path, b, bytes) => {}
             (_, Some(a)) if same_object(path, a, bytes) => {}
